@@ -275,6 +275,42 @@ func touchFamily(thorough bool) [][][]ref.P {
 	return out
 }
 
+// kissFamily: two holes that meet in one pixel without touching: the apex of a narrow triangular hole pokes into the
+// notch of a dart-shaped hole right above it (apex and notch in the same pixel, a sub-pixel apart).  Snapped, the two
+// holes share a centre; if either loses that vertex its neighbours are joined by an edge through the other hole.
+// Quarter pixels; every start vertex of both holes, both orders of the holes.
+func kissFamily(thorough bool) [][][]ref.P {
+	var out [][][]ref.P
+	shell := rect(0, 0, 60, 52, false)
+	for _, an := range [][2]int64{{24, 26}, {24, 27}, {25, 27}, {25, 26}, {26, 27}} {
+		for _, ax := range []int64{29, 30, 31} {
+			for _, nx := range []int64{29, 30, 31} {
+				if !thorough && ax != nx && ax != 30 {
+					continue
+				}
+				tri := []ref.P{{26, 6}, {30, 2}, {34, 6}, {ax, an[0]}}
+				dart := []ref.P{{14, 14}, {nx, an[1]}, {46, 14}, {30, 46}}
+				for _, r := range [][]ref.P{tri, dart} {
+					if ref.Area2(r) > 0 {
+						for l, rr := 0, len(r)-1; l < rr; l, rr = l+1, rr-1 {
+							r[l], r[rr] = r[rr], r[l]
+						}
+					}
+				}
+				if !ref.HoleOK(shell, nil, tri) || !ref.HoleOK(shell, [][]ref.P{tri}, dart) {
+					continue
+				}
+				for _, t := range rotations(tri, allRot(len(tri))) {
+					for _, d := range rotations(dart, allRot(len(dart))) {
+						out = append(out, [][]ref.P{shell, t, d}, [][]ref.P{shell, d, t})
+					}
+				}
+			}
+		}
+	}
+	return out
+}
+
 func familyScopes(thorough bool) []Scope {
 	return append(handMadeFamilyScopes(thorough), cellScopes(thorough)...)
 }
@@ -290,6 +326,7 @@ func handMadeFamilyScopes(thorough bool) []Scope {
 		{Name: "F-touch", GS: GridSpec{Kind: "synth", Deepest: 1, Px: 1, Sub: 4, OffPx: [2]int64{1, 9}, TileWidth: 1}, Spec: lat.Spec{Explicit: touchFamily(thorough), Valid: true}, IDSets: [][]int{{1}}, Cfgs: keepCfgs},
 		{Name: "F-moat2", GS: GridSpec{Kind: "synth", Deepest: 1, Px: 1, Sub: 4, OffPx: [2]int64{1, 1}, TileWidth: 1}, Spec: lat.Spec{Explicit: moat2Family(thorough), Valid: true}, IDSets: [][]int{{1}}, Cfgs: keepCfgs},
 		{Name: "F-nested", GS: GridSpec{Kind: "synth", Deepest: 1, Px: 1, Sub: 4, OffPx: [2]int64{2, 3}, TileWidth: 1}, Spec: lat.Spec{Explicit: nestedFamily(thorough), Valid: true}, IDSets: [][]int{{1}}, Cfgs: keepCfgs},
+		{Name: "F-kiss", GS: synthGS(0, 4, [2]int64{0, 1}), Spec: lat.Spec{Explicit: kissFamily(thorough), Valid: true}, IDSets: one, Cfgs: keepCfgs},
 		{Name: "F-snake", GS: synthGS(0, 8, [2]int64{0, 2}), Spec: lat.Spec{Explicit: snakeFamily(thorough), Valid: true}, IDSets: one, Cfgs: keepCfgs},
 	}
 }
@@ -766,9 +803,9 @@ func moat2Family(thorough bool) [][][]ref.P {
 		gaps = []int64{14, 20, 26, 31, 36}
 		rots = []int{0, 3, 5, 6, 11}
 	}
-	mk := func(dx, inset, g int64) (lake, ditch []ref.P) {
-		lake = rect(dx+14+inset, 14+inset, dx+41-inset, 41-inset, true)
-		o0, o1, i0, i1 := int64(12), int64(43), int64(13), int64(42)
+	mkSized := func(dx, inset, g, far int64) (lake, ditch []ref.P) {
+		lake = rect(dx+14+inset, 14+inset, dx+far-2-inset, far-2-inset, true)
+		o0, o1, i0, i1 := int64(12), far, int64(13), far-1
 		d := []ref.P{{g + 2, i1}, {g + 2, o1}, {o1, o1}, {o1, o0}, {o0, o0}, {o0, o1}, {g, o1}, {g, i1}, {i0, i1}, {i0, i0}, {i1, i0}, {i1, i1}}
 		if ref.Area2(d) > 0 {
 			for l, r := 0, len(d)-1; l < r; l, r = l+1, r-1 {
@@ -780,6 +817,7 @@ func moat2Family(thorough bool) [][][]ref.P {
 		}
 		return
 	}
+	mk := func(dx, inset, g int64) (lake, ditch []ref.P) { return mkSized(dx, inset, g, 43) }
 	for _, inset := range []int64{0, 1} {
 		for _, ga := range gaps {
 			for _, gb := range gaps {
@@ -791,6 +829,19 @@ func moat2Family(thorough bool) [][][]ref.P {
 							continue
 						}
 						out = append(out, [][]ref.P{shell, la, ra, lb, rb}, [][]ref.P{shell, rb, la, lb, ra}, [][]ref.P{shell, la, lb, ra, rb})
+						// ditches without their lakes (each collapses to an outer and an equal inner that must cancel: two
+						// separate groups of equal rings), and one construct with, one without its lake
+						out = append(out, [][]ref.P{shell, ra, rb}, [][]ref.P{shell, rb, ra}, [][]ref.P{shell, la, ra, rb}, [][]ref.P{shell, ra, lb, rb}, [][]ref.P{shell, rb, lb, ra})
+						// the same with a second construct of another size (a mix-up between the two groups of equal rings
+						// must not cancel out in the total area)
+						if gb < 30 {
+							ls, ds := mkSized(60, inset, gb, 35)
+							for _, rs := range rotations(ds, rots) {
+								if ref.HoleOK(shell, [][]ref.P{ra}, rs) && ref.HoleOK(shell, [][]ref.P{ra, rs}, ls) {
+									out = append(out, [][]ref.P{shell, ra, rs}, [][]ref.P{shell, rs, ra}, [][]ref.P{shell, ra, ls, rs})
+								}
+							}
+						}
 					}
 				}
 			}
